@@ -11,6 +11,7 @@ Scratch copies live under DIR (default /tmp/mutrun) and are removed at the end."
 import sys, os, json, random, subprocess, shutil, time, fnmatch, argparse, threading, queue
 
 ROOT = os.path.dirname(os.path.dirname(os.path.abspath(__file__)))
+SNAP = None
 GOENV = dict(os.environ, GOFLAGS="-mod=mod", GOPROXY="off", GOSUMDB="off", GOTOOLCHAIN="local")
 
 
@@ -68,7 +69,7 @@ def worker(wid, q, results, outdir, ids, anchors, lock):
         if verdict is None:
             env = dict(GOENV, VERIF_ALT_REPO=repo, VERIF_ALT_OUT=wdir, VERIF_SEED="1", VERIF_HARNESS_TIMEOUT="8m")
             for pid in order_for(m["file"], ids, anchors):
-                rc, out = sh(["python3", os.path.join(ROOT, "check.py"), pid, "--tier", "quick"], cwd=ROOT, env=env, timeout=900)
+                rc, out = sh(["python3", os.path.join(SNAP, "check.py"), pid, "--tier", "quick"], cwd=SNAP, env=env, timeout=900)
                 if rc == 124:
                     verdict, detail = "hang:" + pid, ""
                     # kill stray test binaries of this worker
@@ -139,6 +140,17 @@ def main():
     if rc != 0:
         print("baseline check failed:\n" + out[-2000:]); sys.exit(2)
     ids, anchors = prop_order()
+    # snapshot of the checking machinery, so that work in /verif (harness edits, driver rebuilds)
+    # does not disturb a running campaign
+    global SNAP
+    SNAP = os.path.join(a.out, "snap")
+    if os.path.exists(SNAP):
+        shutil.rmtree(SNAP)
+    os.makedirs(os.path.join(SNAP, "ocaml"))
+    for f in ("check.py", "props_rules.py", "known_findings.json", "properties.jsonl"):
+        shutil.copy(os.path.join(ROOT, f), os.path.join(SNAP, f))
+    shutil.copytree(os.path.join(ROOT, "harness"), os.path.join(SNAP, "harness"))
+    shutil.copy(os.path.join(ROOT, "ocaml", "driver"), os.path.join(SNAP, "ocaml", "driver"))
     q = queue.Queue()
     for k, m in enumerate(muts):
         q.put((k, m))
